@@ -98,6 +98,15 @@ func isIOEOF(info *types.Info, e ast.Expr) bool {
 	return v != nil && v.Pkg() != nil && v.Pkg().Path() == "io" && v.Name() == "EOF"
 }
 
+func isIOVar(info *types.Info, e ast.Expr, name string) bool {
+	sel, ok := ast.Unparen(e).(*ast.SelectorExpr)
+	if !ok {
+		return false
+	}
+	v, _ := info.Uses[sel.Sel].(*types.Var)
+	return v != nil && v.Pkg() != nil && v.Pkg().Path() == "io" && v.Name() == name
+}
+
 func runReadAtEOF(c *Ctx) {
 	p := c.P
 	n := 0
@@ -130,6 +139,12 @@ func runReadAtEOF(c *Ctx) {
 				if fi := p.FuncOf(fn); fi != nil && fi.Name == "transfer.readAtWithPool" {
 					what = "readAtWithPool"
 				}
+				// io.ReadFull over a file section (round 9): a file that ends inside the buffer gives io.ErrUnexpectedEOF with the bytes
+				if fn.Pkg() != nil && fn.Pkg().Path() == "io" && (fn.Name() == "ReadFull" || fn.Name() == "ReadAtLeast") && len(call.Args) >= 2 {
+					if t := info.TypeOf(call.Args[0]); t != nil && (strings.HasSuffix(t.String(), "io.SectionReader") || strings.HasSuffix(t.String(), "os.File")) {
+						what = "ReadFull"
+					}
+				}
 			}
 			if what == "" {
 				return true
@@ -139,6 +154,9 @@ func runReadAtEOF(c *Ctx) {
 				bufArg := call.Args[0]
 				if what == "readAtWithPool" && len(call.Args) == 4 {
 					bufArg = call.Args[3]
+				}
+				if what == "ReadFull" {
+					bufArg = call.Args[1]
 				}
 				cut := false
 				if se, ok := ast.Unparen(bufArg).(*ast.SliceExpr); ok && se.High != nil {
@@ -182,13 +200,17 @@ func runReadAtEOF(c *Ctx) {
 					if id, ok := ast.Unparen(be.Y).(*ast.Ident); ok && id.Name == "nil" {
 						hasNil = true
 					}
-					if isIOEOF(info, be.Y) {
+					if isIOEOF(info, be.Y) && st.what != "ReadFull" {
+						hasEOF = true
+					}
+					if isIOVar(info, be.Y, "ErrUnexpectedEOF") && st.what == "ReadFull" {
 						hasEOF = true
 					}
 				}
 				// !errors.Is(err, io.EOF)
 				if call, ok := ast.Unparen(a.E).(*ast.CallExpr); ok && !a.Val && len(call.Args) == 2 {
-					if fn := Callee(info, call); fn != nil && fn.Pkg() != nil && fn.Pkg().Path() == "errors" && fn.Name() == "Is" && ObjOf(info, call.Args[0]) == st.errO && isIOEOF(info, call.Args[1]) {
+					if fn := Callee(info, call); fn != nil && fn.Pkg() != nil && fn.Pkg().Path() == "errors" && fn.Name() == "Is" && ObjOf(info, call.Args[0]) == st.errO &&
+						(isIOEOF(info, call.Args[1]) && st.what != "ReadFull" || isIOVar(info, call.Args[1], "ErrUnexpectedEOF") && st.what == "ReadFull") {
 						hasEOF = true
 					}
 				}
@@ -199,6 +221,12 @@ func runReadAtEOF(c *Ctx) {
 			}
 			if st.cut && !hasEOF {
 				c.OK(key, test.Pos(), "the buffer is cut to the expected length at the call: io.EOF comes only with a short count, which is a failure either way")
+				continue
+			}
+			if st.what == "ReadFull" {
+				c.Check(hasEOF, key, test.Pos(), "io.ErrUnexpectedEOF together with the bytes is not a failure: the byte count decides",
+					"the error of io.ReadFull over a section of the file is treated as a failure also when it is io.ErrUnexpectedEOF (the test exempts another error, or none): the file ends inside the chunk-size buffer for the last chunk of every file whose size is not a multiple of the chunk size, "+
+						"ReadFull then returns the bytes with io.ErrUnexpectedEOF - hashing the highest complete chunk fails, and a resume that has to verify it fails every time")
 				continue
 			}
 			c.Check(hasEOF, key, test.Pos(), "io.EOF together with the bytes is not a failure: the byte count decides",
